@@ -4,8 +4,9 @@
      (1 (order..) ((x<k> x<v>)..))  UpdateBatch; order = nibble application order used by the model
                                     (the result is order-independent; the harness passes ascending) -> root hash
      (2 x<key>)                     Get -> (x<value>) or ()
+     (3)                            NewIterator(NodeIterator(nil)) drained -> ((x<key> x<value>)..)
    observation = list of per-op results; an op that errors yields (-2 <class>) and stops the run. *)
-From GV Require Import Lib.Sx Keccak.Sponge Trie.Hex Trie.Node Trie.Ops Trie.Hash.
+From GV Require Import Lib.Sx Keccak.Sponge Trie.Hex Trie.Node Trie.Ops Trie.Hash Trie.Iter.
 
 Definition no_resolve (h p : list N) : option (node * list N) := None.
 
@@ -42,6 +43,11 @@ Fixpoint run_ops (root : node) (ops : list sx) : list sx :=
   | SL [SI 2%Z; SB k] :: r =>
       match trie_get no_resolve root k with
       | TOk (v, root', _, _) => sopt SB v :: run_ops root' r
+      | TErr e => [serr e]
+      end
+  | SL [SI 3%Z] :: r =>
+      match trie_iterate root with
+      | TOk l => SL (map (fun kv => SL [SB (fst kv); SB (snd kv)]) l) :: run_ops root r
       | TErr e => [serr e]
       end
   | _ => [SErr 0]
